@@ -198,6 +198,19 @@ func c01wireCases(run *vlab.Run) []*wireSpec {
 		}
 		cases = append(cases, s)
 	}
+	// volume: far more frames than any buffer of the pipeline or the ring of the socket
+	big := []*wireSpec{
+		{Cmd: []string{"arp"}, Kind: "arp", Link: "tap", Mode: "subnet", Subnet: "10.9.16.0/20"},
+		{Cmd: []string{"tcp", "syn"}, Kind: "tcp", Link: "tun", Mode: "subnet", Subnet: "10.9.32.0/22", Ports: "80,443,8000-8001"},
+	}
+	if run.Thorough() {
+		big = append(big, &wireSpec{Cmd: []string{"icmp"}, Kind: "icmp", Link: "tap", Mode: "subnet", Subnet: "10.9.0.0/16"},
+			&wireSpec{Cmd: []string{"udp"}, Kind: "udp", Link: "tap", Mode: "subnet", Subnet: "10.9.64.0/18", Ports: "53,123,161,500"})
+	}
+	for _, b := range big {
+		b.Extra = []string{"--exit-delay", "100ms"}
+		cases = append(cases, b)
+	}
 	return cases
 }
 
